@@ -3,6 +3,7 @@
 This is the only module that reads internals (Fiber.coords / .payloads / ._owner, Rank.fibers,
 Rank.next_rank, Tensor._root / .ranks).  It computes no expected values.
 """
+from fractions import Fraction
 import sys
 
 sys.path.insert(0, __import__("os").environ.get("VERIF_REPO", "/repo"))
@@ -119,6 +120,11 @@ def proj_value(v):
         return {"k": "X", "t": "boxed-fiber"}
     if isinstance(v, tuple):
         return {"k": "X", "t": "tuple"}
+    if isinstance(v, Fraction):
+        # a number like any other (what arithmetic with a Fraction scalar leaves in a box)
+        if v.denominator == 1 and abs(v.numerator) < 2**31:
+            return {"k": "L", "v": int(v.numerator), "fr": 1}
+        return {"k": "X", "t": "fraction"}
     return {"k": "X", "t": type(v).__name__}
 
 
